@@ -155,3 +155,39 @@ Proof. intros H. cbn [static_from]. unfold static_step. rewrite H. reflexivity. 
 
 (* ---- several memory spaces: each memory behaves like the single-memory allocator on its own
    requests ------------------------------------------------------------------------------- *)
+
+(* ---- the memref descriptor ------------------------------------------------------------- *)
+Definition resolve (rt : Z * Z) (p : psrc) : option Z :=
+  match p with
+  | PConst a => Some a
+  | PField 0 => Some (fst rt)
+  | PField 1 => Some (snd rt)
+  | PField _ => None
+  end.
+
+Section Runtime.
+  (* snax_alloc_l1(size, alignment) is run-time code outside the repository's Python: an oracle returning
+     (pointer, aligned_pointer) with the contract of an aligned allocator *)
+  Variable alloc_l1 : Z -> Z -> Z * Z.
+  Hypothesis alloc_l1_contract : forall size al, 0 < al ->
+    fst (alloc_l1 size al) <= snd (alloc_l1 size al) /\ snd (alloc_l1 size al) mod al = 0.
+
+  (* dynamic mode: accesses go through descriptor field 1, which is the allocator's aligned pointer obtained
+     with this alloc's own alignment; field 0 keeps the base pointer; offset 0; sizes are the shape operands *)
+  Theorem descr_dynamic_aligned size al n : 0 < al ->
+    let d := descr_dynamic al n in
+    d_call_align d = Some al /\
+    resolve (alloc_l1 size al) (d_ptr d) = Some (fst (alloc_l1 size al)) /\
+    (exists ap, resolve (alloc_l1 size al) (d_aligned d) = Some ap /\ ap mod al = 0 /\ fst (alloc_l1 size al) <= ap) /\
+    d_offset d = 0 /\ d_sizes d = seq 0 n.
+  Proof.
+    intros Hal d. destruct (alloc_l1_contract size al Hal) as [H1 H2].
+    repeat split; try reflexivity. exists (snd (alloc_l1 size al)). repeat split; assumption.
+  Qed.
+End Runtime.
+
+(* static / minimalloc mode: both pointer fields are the constant address *)
+Theorem descr_const_fields addr n rt :
+  resolve rt (d_ptr (descr_const addr n)) = Some addr /\ resolve rt (d_aligned (descr_const addr n)) = Some addr /\
+  d_offset (descr_const addr n) = 0 /\ d_sizes (descr_const addr n) = seq 0 n.
+Proof. repeat split. Qed.
